@@ -1,5 +1,254 @@
-"""FailOnSkipped mapping obligations (C13, C01) - filled in below."""
+"""FailOnSkipped::handle_event decided on its MIR (C13; the fail_on_skipped clause of C01).
+
+The whole async handle_event is polled: `event.map(|outer| outer.map(|ev| match ev {..}))`, the map_failed*
+closures, Scenario::with_retries, Cucumber::scenario - all real bodies.  The predicate `should_fail` is an
+opaque function value: a symbolic Boolean whose arguments are recorded and checked.  The inner writer is a
+recorder.  Oracle: the inner writer receives exactly one item; it is the SAME item unless the input is a
+Skipped (background or regular) step of a scenario (inside or outside a rule), in which case only the step
+event is replaced by Failed(None, None, None, NotFound) iff the predicate holds, with feature / rule /
+scenario / step / retries unchanged.
+"""
+import z3
+
+from checks import common, events
+from checks.common import Obligation
+from mirsmt.values import Cell, Lazy, Adt, Ref, UNIT, bv
+from mirsmt.interp import Inconclusive, PathEnd
+
+
+def _entry(chk, st, meth='handle_event', trait='Writer'):
+    c = [b for (s, m), lst in chk.prog.by_method.items() if s == st and m == meth for tr, b in lst if tr == trait]
+    if len(c) != 1:
+        raise Inconclusive('%s::%s: %d candidates' % (st, meth, len(c)))
+    return c[0]
+
+
+def poll_to_completion(ex, M, co, max_polls):
+    cocell = Cell(co, name='coroutine')
+    pin = Adt('Pin<&mut coroutine>', {(None, 0): Ref(cocell, ())})
+    cx = Ref(Cell(Lazy('Context', 'cx')), ())
+    polls = 0
+    while True:
+        polls += 1
+        if polls > max_polls:
+            raise PathEnd('loopbound', 'not Ready after %d polls' % polls)
+        body = ex.prog.poll_body(co.ty, ex.coro_origin.get(co.ty))
+        if body is None:
+            raise Inconclusive('no poll body for %s' % co.ty)
+        r = ex.call_body(body, [pin, cx])
+        if ex.branch(M.discr(ex, r) == bv(0)):
+            return polls, r
 
 
 def obligations(chk, prop, only_core=False):
-    return []
+    ix = events.CukeIdx(chk.prog)
+    entry = _entry(chk, 'FailOnSkipped')
+    fos_fields = chk.prog.tables.struct_fields('fail_on_skipped::FailOnSkipped<W, F>')
+    if not isinstance(fos_fields, list) or 'writer' not in fos_fields or 'should_fail' not in fos_fields:
+        raise Inconclusive('FailOnSkipped fields: %r' % (fos_fields,))
+    pendings = (0, 1) if chk.tier == 'thorough' else (0,)
+    obs = {}
+    bound = 'every path of FailOnSkipped::handle_event polled to completion, arbitrary stream item, arbitrary predicate value'
+
+    def ob(name):
+        if name not in obs:
+            obs[name] = chk.add(Obligation('%s.fail_on_skipped.%s' % (prop, name), bound))
+            obs[name].verdict = 'holds'
+        return obs[name]
+    npaths = [0]
+    for k in pendings:
+        ex, M = chk.new_exec(loop_bound=6)
+        E = events.SymCuke('E')
+        should = z3.Bool('should_fail')
+
+        def hook(ex_, f, args, dty, info):
+            M.log(ex_, 'predicate', args=args)
+            return should
+        M.opaque_fn_hook = hook
+
+        def run(ex_, k=k, E=E, M=M):
+            ex_.env['inner_pending'] = k
+            ex_.add(E.well_formed(ix))
+            sv = Adt('fail_on_skipped::FailOnSkipped<Wr, F>', {(None, fos_fields.index('writer')): Lazy('Wr', 'inner'),
+                                                              (None, fos_fields.index('should_fail')): Lazy('F', 'pred')}, None, None)
+            cell = Cell(sv, name='self')
+            evv = E.build(ix)
+            cli = Ref(Cell(Lazy('Cli', 'cli'), name='cli'), ())
+            co = ex_.call_body(entry, [Ref(cell, ()), evv, cli])
+            polls, _ = poll_to_completion(ex_, M, co, 2 * k + 3)
+            return {'log': list(ex_.env.get('log', [])), 'input': evv}
+
+        def on_end(ex_, rec, E=E, M=M, should=should):
+            kind, res, pc, dec = rec
+            npaths[0] += 1
+            if kind != 'ok':
+                o = ob('completes')
+                o.verdict = 'inconclusive' if kind in ('loopbound', 'unreachable') else 'violated'
+                o.detail = '%s: %s' % (kind, res)
+                return
+            log = res['log']
+            calls = [e for e in log if e['kind'] == 'inner_handle_event_done']
+            o = ob('inner-writer-gets-exactly-one-item')
+            o.paths += 1
+            if len(calls) != 1:
+                o.verdict = 'violated'
+                o.detail = '%d items delivered' % len(calls)
+                return
+            out = ex_.materialize(calls[0]['event'])
+            inp = res['input']
+            terms = {'res': E.res, 'top': E.top, 'fe': E.fe, 're': E.re, 'sc': E.sc.sc, 'step': E.sc.step,
+                     'ret': E.sc.ret, 'should_fail': should}
+
+            def refute(o, claim):
+                o.paths += 1
+                o.queries += 1
+                if ex_.check(z3.Not(claim)):
+                    if o.verdict != 'violated':
+                        o.verdict = 'violated'
+                        o.model = common.model_dict(ex_.solver.model(), terms)
+                        o.detail = 'counterexample stream item'
+            S = E.sc
+            skipped_in = z3.And(E.is_scenario(ix), S.is_step_ev(ix), S.step == bv(ix.Step['Skipped']))
+            # decide on this path whether the input is a skipped step (path conditions fix the discriminants)
+            is_sk = ex_.check(skipped_in)
+            not_sk = ex_.check(z3.Not(skipped_in))
+            if is_sk and not_sk:
+                ob('path-decides-event-class').verdict = 'inconclusive'
+                return
+            od = M.discr(ex_, out)
+            if not is_sk:
+                # untouched: same Ok/Err, and the very same payload object
+                o2 = ob('other-events-untouched')
+                refute(o2, od == E.res)
+                o2.paths += 1
+                if ex_.check(E.is_err()):
+                    same = ex_.field_of(out, 1, 0, 'parser::Error') is inp.fields[(1, 0)]
+                else:
+                    oe = ex_.materialize(ex_.field_of(out, 0, 0, 'event::Event<C>'))
+                    same = ex_.field_of(oe, None, ix.EventValue, 'event::Cucumber<W>') is \
+                        inp.fields[(0, 0)].fields[(None, ix.EventValue)]
+                if not same:
+                    o2.verdict = 'violated'
+                    o2.detail = 'a non-skipped item was rebuilt / changed'
+                    o2.model = common.model_dict(ex_.solver.model(), terms) if ex_.check() else None
+                preds = [e for e in log if e['kind'] == 'predicate']
+                return
+            # skipped step: structure preserved, only the step event mapped
+            oe = ex_.materialize(ex_.field_of(out, 0, 0, 'event::Event<C>'))
+            cu = ex_.materialize(ex_.field_of(oe, None, ix.EventValue, 'event::Cucumber<W>'))
+            o3 = ob('skipped-step-mapped-in-place')
+            claims = [od == bv(0), M.discr(ex_, cu) == bv(ix.Top['Feature'])]
+            if ex_.check(z3.Not(z3.And(*claims))):
+                refute(o3, z3.And(*claims))
+                return
+            f = ex_.field_of(cu, ix.Top['Feature'], 0, 'event::Source<gherkin::Feature>')
+            fe = ex_.materialize(ex_.field_of(cu, ix.Top['Feature'], 1, 'event::Feature<W>'))
+            claims = [M.pid(ex_, f) == E.pf, M.discr(ex_, fe) == E.fe]
+            in_rule = not ex_.check(z3.Not(E.scenario_in_rule(ix)))
+            if ex_.check(z3.Not(z3.And(*claims))):
+                refute(o3, z3.And(*claims))
+                return
+            if in_rule:
+                r = ex_.field_of(fe, ix.Fe['Rule'], 0, 'event::Source<gherkin::Rule>')
+                re_ = ex_.materialize(ex_.field_of(fe, ix.Fe['Rule'], 1, 'event::Rule<W>'))
+                claims = [M.pid(ex_, r) == E.pr, M.discr(ex_, re_) == bv(ix.Re['Scenario'])]
+                if ex_.check(z3.Not(z3.And(*claims))):
+                    refute(o3, z3.And(*claims))
+                    return
+                scs = ex_.field_of(re_, ix.Re['Scenario'], 0, 'event::Source<gherkin::Scenario>')
+                rs = ex_.materialize(ex_.field_of(re_, ix.Re['Scenario'], 1, 'event::RetryableScenario<W>'))
+            else:
+                scs = ex_.field_of(fe, ix.Fe['Scenario'], 0, 'event::Source<gherkin::Scenario>')
+                rs = ex_.materialize(ex_.field_of(fe, ix.Fe['Scenario'], 1, 'event::RetryableScenario<W>'))
+            sev = ex_.materialize(ex_.field_of(rs, None, ix.RS['event'], 'event::Scenario<W>'))
+            ret = ex_.materialize(ex_.field_of(rs, None, ix.RS['retries'], 'Option<event::Retries>'))
+            claims = [M.pid(ex_, scs) == E.ps, M.discr(ex_, sev) == S.sc, M.discr(ex_, ret) == S.ret]
+            if ex_.check(z3.Not(z3.And(*claims))):
+                refute(o3, z3.And(*claims))
+                return
+            if ex_.check(S.ret == bv(1)):
+                rv = ex_.materialize(ex_.field_of(ret, 1, 0, 'event::Retries'))
+                refute(o3, z3.Implies(S.ret == bv(1), z3.And(
+                    ex_.materialize(ex_.field_of(rv, None, ix.Ret['current'], 'usize'), 'usize') == S.cur,
+                    ex_.materialize(ex_.field_of(rv, None, ix.Ret['left'], 'usize'), 'usize') == S.left)))
+            var = ix.Sc['Background'] if not ex_.check(S.sc != bv(ix.Sc['Background'])) else ix.Sc['Step']
+            stp = ex_.field_of(sev, var, 0, 'event::Source<gherkin::Step>')
+            sv = ex_.materialize(ex_.field_of(sev, var, 1, 'event::Step<W>'))
+            sd = M.discr(ex_, sv)
+            refute(o3, M.pid(ex_, stp) == E.pst)
+            refute(ob('skipped-becomes-failed-iff-predicate'), sd == z3.If(should, bv(ix.Step['Failed']), bv(ix.Step['Skipped'])))
+            if not ex_.check(sd != bv(ix.Step['Failed'])):
+                o4 = ob('failed-event-is-not-found-without-captures-location-world')
+                fl = [ex_.field_of(sv, ix.Step['Failed'], i, 'Option<?>') for i in range(3)]
+                err = ex_.field_of(sv, ix.Step['Failed'], 3, 'event::StepError')
+                refute(o4, z3.And(*([M.discr(ex_, x) == bv(0) for x in fl] + [M.discr(ex_, err) == bv(ix.Err['NotFound'])])))
+            # predicate evaluated on the event's own feature / rule / scenario
+            preds = [e for e in log if e['kind'] == 'predicate']
+            o5 = ob('predicate-evaluated-once-on-own-feature-rule-scenario')
+            o5.paths += 1
+            if len(preds) != 1:
+                o5.verdict = 'violated'
+                o5.detail = 'predicate evaluated %d times' % len(preds)
+                return
+            a = preds[0]['args']
+
+            def cellname(v):
+                v = ex_.materialize(v)
+                while isinstance(v, Adt) and (None, 0) in v.fields:
+                    v = ex_.materialize(v.fields[(None, 0)])
+                return v.cell.name if isinstance(v, Ref) else None
+            okf = cellname(a[0]) == 'E.feat'
+            oks = cellname(a[2]) == 'E.scn'
+            rd = z3.simplify(M.discr(ex_, a[1]))
+            okr = z3.is_bv_value(rd) and ((rd.as_long() == 1) == in_rule) and \
+                (not in_rule or cellname(ex_.field_of(ex_.materialize(a[1]), 1, 0, '&gherkin::Rule')) == 'E.rule')
+            if not (okf and oks and okr):
+                o5.verdict = 'violated'
+                o5.detail = 'predicate arguments: feature ok=%s rule ok=%s scenario ok=%s' % (okf, okr, oks)
+
+        ex.explore(run, on_end)
+    w = chk.add(Obligation('%s.fail_on_skipped.witness' % prop, 'exploration'))
+    w.kind = 'witness'
+    need = {'skipped-becomes-failed-iff-predicate', 'other-events-untouched', 'failed-event-is-not-found-without-captures-location-world'}
+    w.verdict = 'witness-ok' if need <= set(obs) and npaths[0] >= 12 else 'witness-missing'
+    w.detail = '%d paths; obligations exercised: %s' % (npaths[0], sorted(obs))
+    if not only_core:
+        default_predicate(chk, prop)
+    return list(obs.values())
+
+
+def default_predicate(chk, prop):
+    """`!sc.tags.iter().chain(rule.iter().flat_map(|r| &r.tags)).chain(&feat.tags).any(|t| t == "allow.skipped")`
+    decided for tag lists of length <= 2 per level, each tag's equality to "allow.skipped" a symbolic Boolean."""
+    from checks import tagsets
+    body = chk.prog.find('fail_on_skipped.rs:204:1: 204:52>::from::{closure#0}')
+    tagsets.tag_predicate_obligation(chk, body, '%s.fail_on_skipped.default-predicate' % prop, 'allow.skipped',
+                                     negate=True, arg_order=('feature', 'rule', 'scenario'), closure_self=True,
+                                     confirm=lambda c, o: confirm_default_predicate(c, o, prop))
+
+
+def confirm_default_predicate(chk, o, prop):
+    """Native replay through the real `FailOnSkipped::new`: a Skipped step of a scenario with the model's tags."""
+    import os
+    from checks import replay, tagsets
+    d = os.path.join(common.EVID, 'replay')
+    os.makedirs(d, exist_ok=True)
+    path = os.path.join(d, '%s-fail-on-skipped-default-predicate.script' % prop)
+    lines = ['mode events', 'wrapper fail_on_skipped', 'bg 0', 'own 1'] + tagsets.script_tags(o.model, 'allow.skipped') + \
+        ['ev step 0 started r=-', 'ev step 0 skipped r=-', 'ev finished r=-']
+    res, out = replay.run_script('\n'.join(lines) + '\n', path)
+    chk.replays += 1
+    chk.replay_files.append(path)
+    o.replay = path
+    allowed = bool(o.model['tags_equal_to_literal'])
+    got_failed = any(l.startswith('LOG ') and ':failed:notfound' in l for l in out.splitlines())
+    got_skipped = any(l.startswith('LOG ') and ':skipped' in l for l in out.splitlines())
+    if res is None or got_failed == got_skipped:
+        o.verdict = 'inconclusive'
+        o.detail += ' | native replay failed: %s' % out[-300:]
+    elif got_failed == allowed:
+        o.detail += ' | reproduced natively: the real FailOnSkipped %s a Skipped step although an inherited tag %s @allow.skipped (%s)' % (
+            'fails' if got_failed else 'keeps', 'is' if allowed else 'is not', path)
+    else:
+        o.verdict = 'inconclusive'
+        o.detail += ' | native replay DISAGREES with the encoder (real output follows the specification)'
